@@ -182,7 +182,7 @@ NOT_APPLICABLE = {}
 
 
 FAULTS = {
-    "whole": "; fault histories: the same case first aborted by injected exceptions at random library calls (M-fault, sys.monitoring failpoints), stages called out of turn, refuse/mend/retry on the same object",
+    "whole": "; fault histories: the same case and a sibling graph on the same block names first aborted by injected exceptions at random library calls (M-fault, sys.monitoring failpoints), stages called out of turn, refuse/mend/retry on the same object, stages repeated on the same object where the oracle holds for that",
     "edit": "; fault histories: edits refused half-way (unknown predecessor) followed by the hierarchy walker and more edits on the same object, injected failpoints (M-fault)",
     "op": "; fault histories: one operation on graph A aborted by an injected exception or refused by the library, the same operation on graph B checked next (M-fault)",
     "prog": "; fault histories: conversions of the same source aborted by injected exceptions (first one before any conversion of it completed) precede the checked run (M-fault)",
@@ -236,7 +236,7 @@ def main():
             "path": "vmon/",
             "serves_properties": sorted(CHECKS),
             "kind_free_text": "runtime monitors (stage hooks, contracts, recorders) attached to the real "
-                              "library + oracles over what they observe; workloads in vmon/workloads",
+                              "library + oracles over what they observe; workloads in vmon/workloads; every fourth worker shard runs with the library's DEBUG log records formatted (process configuration as a workload dimension), every worker under an address-space limit",
         }],
         "checks": checks,
         "not_applicable": na,
